@@ -14,7 +14,7 @@ RULE = ("well-formed requests (hand-written feature set + random within each con
         "(whole, byte-wise, line-wise, every single cut, every pair of cuts for short messages, cuts at structural offsets, "
         "random k-cuts) x configurations (limits, STRICT_CRLF, container, chunk concatenation, HEAD translation); expected "
         "deliveries are computed from the message parts; non-trivial = more than one read; distinct = distinct (config, message, partition)")
-TRUSTED_BASE = ["tools/cxx2lean.py + tools/cxx2lean_rx.py (translator of the parse_char / parse state machines, message_headers::parse, rx_chunk::parse, rx_request / rx_response::parse and request_receiver / response_receiver::receive + clear from the current C++ into Lean; the model is proved equal to the translation in ViaProofs/Trans; NOT translated and mapped by name to model functions: the header look-ups of message_headers (find, content_length, is_chunked, expect_continue, close_connection))", "Lean 4.33 kernel", "axioms: propext, Classical.choice, Quot.sound at most",
+TRUSTED_BASE = ["tools/cxx2lean.py + cxx2lean_rx.py + cxx2lean_enc.py (translator, from the current C++ into Lean, of the parse_char / parse state machines, message_headers::parse, rx_chunk::parse, rx_request / rx_response::parse, request_receiver / response_receiver::receive + clear, the header look-ups content_length / is_chunked / close_connection / expect_continue, the predicates keep_alive / missing_host_header / expect_continue / is_head / is_trace, and the encoders incl. are_headers_split and tx_response::is_valid; the model is proved equal to the translation in ViaProofs/Trans; mapped by name, not translated: std::unordered_map::find, strtol-based from_dec_string / from_hex_string, stringstream-based to_hex_string, std::string::find, std::transform(tolower))", "Lean 4.33 kernel", "axioms: propext, Classical.choice, Quot.sound at most",
                 "rx_driver harness (real request_receiver driven like http_server::receive_handler) + via_model driver",
                 "std::string / std::vector<char> / unordered_map modelled as lists / association lists"]
 ASSUMPTIONS = ["the per-read loop of rx_driver is the loop of http_server::receive_handler with an application that answers inside "
